@@ -3,7 +3,7 @@
    Link.v (leaf functions regenerated from the source = model leafs).
    to_double (strtod on the accumulated number text), print16 (the 16-digit printer) and to_float
    are parameters of the model: they appear as universally quantified arguments. *)
-From CppcmsV Require Import Base.Tac Base.CSem Base.Sweep C11.Defs C11.Proofs1 C11.Proofs2 C11.Proofs3 C11.Proofs4 C11.Proofs5 C11.Link gen.Gen_json gen.Gen_json_esc.
+From CppcmsV Require Import Base.Tac Base.CSem Base.Sweep C11.Defs C11.Proofs1 C11.Proofs2 C11.Proofs3 C11.Proofs4 C11.Proofs5 C11.Proofs6 C11.NumGrammar C11.StrExact C11.Sound C11.Complete C11.Lex C11.NumRound C11.IntRound C11.DepthDup C11.TokClass C11.ValueApi C11.Link gen.Gen_json gen.Gen_json_esc gen.Gen_json_tok.
 Local Open Scope N_scope.
 
 (* 1. parsing any byte string terminates: the fuel S (length s) of the loop is never exhausted *)
@@ -101,6 +101,228 @@ Proof.
     + exact Hb.
 Qed.
 
+(* 2b. the nesting bound, from both sides, for every mixture of arrays and objects (DepthDup.v).  An opener is an array bracket or
+   an object brace with a key literal and its colon; wrap os inner puts the levels os around the text inner. *)
+Theorem depth_512_accepted : forall to_double os n inner v,
+  Forall opener_ok os -> Val to_double n inner v -> (length os + n <= max_depth)%nat ->
+  parse to_double true (wrap os inner) = POk (wrapvs os v) [].
+Proof. exact DepthDup.depth_512_accepted. Qed.
+Print Assumptions depth_512_accepted.
+Theorem depth_513_rejected : forall to_double os c rest full,
+  Forall opener_ok os -> length os = max_depth -> c = 91 \/ c = 123 ->
+  exists line, parse to_double full (flat_map otext os ++ c :: rest) = PFail line.
+Proof. exact DepthDup.depth_513_rejected. Qed.
+Print Assumptions depth_513_rejected.
+(* 512 levels alternating object / array around the string "s" are accepted; the same 512 openers followed by one more brace fail *)
+Fixpoint alt_openers (n : nat) : list opener :=
+  match n with O => [] | S k => (if Nat.even k then OArr else OObj [107] [107]) :: alt_openers k end.
+Example depth_bound_nonvacuous : forall to_double,
+  Forall opener_ok (alt_openers 512) /\ length (alt_openers 512) = max_depth /\
+  (exists v, parse to_double true (wrap (alt_openers 512) [34;115;34]) = POk v [] /\ depth v = 512%nat) /\
+  (exists line, parse to_double true (flat_map otext (alt_openers 512) ++ [123;125]) = PFail line).
+Proof.
+  intros td.
+  assert (F : forall n, Forall opener_ok (alt_openers n)).
+  { induction n as [|n IH]; [constructor|]. cbn [alt_openers]. constructor; [|exact IH].
+    destruct (Nat.even n); [exact I|]. split; [|reflexivity]. apply SB_raw; [lia|lia|lia|constructor]. }
+  split; [apply F|]. split; [reflexivity|]. split.
+  - exists (wrapvs (alt_openers 512) (JStr [115])). split; [|vm_compute; reflexivity].
+    apply (DepthDup.depth_512_accepted td (alt_openers 512) 0 [34;115;34] (JStr [115]) (F _)); [|apply Nat.leb_le; vm_compute; reflexivity].
+    apply (V_str td 0 [115] [115]); [apply SB_raw; [lia|lia|lia|constructor]|reflexivity].
+  - apply (DepthDup.depth_513_rejected td (alt_openers 512) 123 [125] true (F _) eq_refl). right. reflexivity.
+Qed.
+
+(* 2c. duplicate keys: the state that expects the value of a member whose (decoded) key is already in the object goes to the error
+   state on every token; keys are compared as decoded byte strings *)
+Theorem duplicate_key_is_error : forall t mm k0 K' key res, map_mem key mm = true ->
+  step_tok t (SObjValue, FObj mm k0 :: K', key, res) = (SErr, FObj mm k0 :: K', key, res).
+Proof. exact DepthDup.duplicate_key_is_error. Qed.
+Print Assumptions duplicate_key_is_error.
+Theorem key_present_iff : forall k (m : list (list N * jv)), map_mem k m = true <-> In k (map fst m).
+Proof. exact (@DepthDup.map_mem_iff jv). Qed.
+Print Assumptions key_present_iff.
+
+(* 2c'. an extension over RFC 8259 found by the exactness oracle: the state after a comma is the state that also accepts the closing
+   bracket / brace, so a comma directly before the closing token is ignored ([1,] reads as [1]); modelled as it is, see docs/C11.md *)
+Theorem trailing_comma_ignored :
+  (forall items K' key res,
+     step_tok (TStruct 93) (step_tok (TStruct 44) (SArrCloseOrComma, FArr items :: K', key, res)) =
+     step_tok (TStruct 93) (SArrCloseOrComma, FArr items :: K', key, res)) /\
+  (forall mm k0 K' key res,
+     step_tok (TStruct 125) (step_tok (TStruct 44) (SObjCloseOrComma, FObj mm k0 :: K', key, res)) =
+     step_tok (TStruct 125) (SObjCloseOrComma, FObj mm k0 :: K', key, res)).
+Proof. exact DepthDup.trailing_comma_ignored. Qed.
+Print Assumptions trailing_comma_ignored.
+Example trailing_comma_nonvacuous : forall td,
+  parse td true [91;110;117;108;108;44;93] = POk (JArr [JNull]) [] /\
+  parse td true [123;34;97;34;58;110;117;108;108;44;125] = POk (JObj [([97], JNull)]) [] /\
+  parse td true [91;44;93] = PFail 1 /\
+  parse td true [91;110;117;108;108;44;44;93] = PFail 1 /\
+  parse td true [123;44;125] = PFail 1.
+Proof. exact trailing_comma_examples. Qed.
+
+(* 2d. surrogates: a low-surrogate escape that does not complete a pair is rejected wherever it stands in a literal (its three-byte
+   encoding fails utf8::validate); a high-surrogate escape must be followed by backslash, u and a low surrogate *)
+Theorem lone_second_surrogate_rejected : forall to_double b s h1 h2 h3 h4 r,
+  StrBody b s -> utf8_valid s = true -> hex4_ok h1 h2 h3 h4 = true -> is_second_surrogate (hex4 h1 h2 h3 h4) = true ->
+  exists r' n, next to_double false (34 :: b ++ 92 :: 117 :: h1 :: h2 :: h3 :: h4 :: r) = (TErr, r', n).
+Proof. exact DepthDup.lone_second_surrogate_rejected. Qed.
+Print Assumptions lone_second_surrogate_rejected.
+Theorem first_surrogate_needs_u_and_second :
+  (forall w e r, e <> 117 -> scan_string (Some w) (92 :: e :: r) = None) /\
+  (forall w h1 h2 h3 h4 r, is_second_surrogate (hex4 h1 h2 h3 h4) = false ->
+     scan_string (Some w) (92 :: 117 :: h1 :: h2 :: h3 :: h4 :: r) = None).
+Proof. split; [exact DepthDup.first_surrogate_needs_u|exact DepthDup.first_surrogate_needs_second]. Qed.
+Print Assumptions first_surrogate_needs_u_and_second.
+Theorem surrogate_encoding_never_valid : forall x r, is_surrogate x = true -> utf8_valid (utf8_encode x ++ r) = false.
+Proof. exact DepthDup.surrogate_encoding_invalid. Qed.
+Print Assumptions surrogate_encoding_never_valid.
+Example escapes_and_duplicates_nonvacuous : forall td,
+  parse td true [34;92;117;48;48;48;48;34] = POk (JStr [0]) [] /\
+  parse td true [34;92;117;102;102;102;101;92;117;70;70;70;70;34] = POk (JStr [239;191;190;239;191;191]) [] /\
+  parse td true [34;92;117;100;98;102;102;92;117;100;102;102;102;34] = POk (JStr [244;143;191;191]) [] /\
+  parse td true [34;92;117;100;99;48;48;92;117;100;56;48;48;34] = PFail 1 /\
+  parse td true [34;92;117;100;56;48;48;92;117;48;48;52;49;34] = PFail 1 /\
+  parse td true [34;92;117;100;56;48;48;92;117;100;56;48;48;34] = PFail 1 /\
+  parse td true [34;92;117;100;56;48;48;92;110;92;117;100;99;48;48;34] = PFail 1 /\
+  parse td true [123;34;97;34;58;110;117;108;108;44;34;92;117;48;48;54;49;34;58;110;117;108;108;125] = PFail 1 /\
+  parse td true [123;34;97;34;58;123;34;97;34;58;110;117;108;108;125;44;34;65;34;58;110;117;108;108;125]
+    = POk (JObj [([65], JNull); ([97], JObj [([97], JNull)])]) [].
+Proof. exact escapes_and_duplicates. Qed.
+
+(* 3b. numbers: the exact language of lexemes the tokenizer turns into a number.  rfc_num = RFC 8259 section 6,
+   len_num = -? ( DIGIT+ ( . DIGIT* )? | . DIGIT+ ) ( [eE] [+-]? DIGIT+ )?, strtod_dec = the same with [+-]? (the decimal
+   subject sequence of strtod); all three are one span-based matcher (NumGrammar.v).  num_start L = L begins with a minus
+   or a digit (the only bytes on which tockenizer::next calls parse_number). *)
+Theorem number_lexeme_exact : forall L, num_start L ->
+  strtod_dec (fst (scan_number L)) && isnil (snd (scan_number L)) = len_num L.
+Proof. exact lexeme_exact. Qed.
+Print Assumptions number_lexeme_exact.
+Theorem rfc_number_iff_int_frac_exp : forall L,
+  rfc_num L = true <-> exists neg i f e, int_ok i /\ frac_ok f /\ exp_ok e /\ L = num_text neg i f e.
+Proof. exact rfc_num_iff. Qed.
+Print Assumptions rfc_number_iff_int_frac_exp.
+Theorem rfc_number_in_accepted_language : forall L, rfc_num L = true -> len_num L = true.
+Proof. exact rfc_sub_len. Qed.
+Print Assumptions rfc_number_in_accepted_language.
+(* the accepted lexemes that are not RFC numbers are exactly: a leading zero before another digit (01, -007), no digit
+   before the point (-.5), no digit after the point (1., 1.e5) *)
+Theorem accepted_non_rfc_number_classes : forall L, len_num L = true ->
+  (rfc_num L = false <-> leading_zero L = true \/ empty_int L = true \/ empty_frac L = true).
+Proof. intros L H. split; [apply len_not_rfc_classes; exact H|apply classes_not_rfc]. Qed.
+Print Assumptions accepted_non_rfc_number_classes.
+(* strtod_law: the conversion behind istream >> double succeeds exactly on whole decimal subject sequences whose value
+   does not round to an infinity; rounds_finite stays abstract (the value of a number is an oracle) *)
+Theorem number_token_exact : forall to_double rounds_finite,
+  (forall x, to_double x <> None <-> (strtod_dec x = true /\ rounds_finite x = true)) ->
+  forall L, num_start L ->
+  ((exists b, next to_double false L = (TNum b, [], 0)) <->
+   (len_num L = true /\ rounds_finite (fst (scan_number L)) = true)).
+Proof. exact NumGrammar.number_token_exact. Qed.
+Print Assumptions number_token_exact.
+Theorem number_document_accepted : forall to_double L b, num_start L -> len_num L = true ->
+  to_double (fst (scan_number L)) = Some b -> parse to_double true L = POk (JNum b) [].
+Proof. exact NumGrammar.number_document. Qed.
+Print Assumptions number_document_accepted.
+Theorem number_document_rejected : forall to_double rounds_finite,
+  (forall x, to_double x <> None <-> (strtod_dec x = true /\ rounds_finite x = true)) ->
+  forall L, num_start L -> (len_num L = false \/ rounds_finite (fst (scan_number L)) = false) ->
+  snd (scan_number L) = [] -> parse to_double true L = PFail 1.
+Proof. exact NumGrammar.number_not_accepted_fails. Qed.
+Print Assumptions number_document_rejected.
+Example number_language_nonvacuous :
+  map len_num [[48;49]; [45;48;48;55]; [49;46]; [45;46;53]; [49;46;101;53]; [45;48;46]] = [true; true; true; true; true; true] /\
+  map rfc_num [[48;49]; [45;48;48;55]; [49;46]; [45;46;53]; [49;46;101;53]; [45;48;46]] = [false; false; false; false; false; false] /\
+  map len_num [[43;49]; [49;101]; [49;101;43]; [45]; [45;46;101;53]; [48;120;49;48]; [49;46;53;46;51]]
+    = [false; false; false; false; false; false; false] /\
+  (forall td, parse td true [46;53] = PFail 1 /\ parse td true [43;49] = PFail 1).
+Proof. exact discrepancy_witnesses. Qed.
+
+(* 3c. strings: utf8::validate accepts exactly the concatenations of encodings of scalar values, and a string literal
+   given as a sequence of code points (raw, short escape, \uXXXX, surrogate pair) satisfies the UTF-8 premise of the grammar *)
+Theorem utf8_valid_iff_encodings : forall s,
+  utf8_valid s = true <-> exists cps, Forall (fun x => cp_valid x = true) cps /\ s = flat_map utf8_encode cps.
+Proof. exact Proofs6.utf8_valid_iff. Qed.
+Print Assumptions utf8_valid_iff_encodings.
+Theorem code_point_string_literal_ok : forall b s, StrCP b s -> StrBody b s /\ utf8_valid s = true.
+Proof. exact Proofs6.strcp_ok. Qed.
+Print Assumptions code_point_string_literal_ok.
+
+(* 3d. strings, exactly: the scanner accepts precisely the literals of the grammar StrBody (raw bytes >= 0x20 other than quote and backslash,
+   the eight short escapes, \uXXXX of a non-surrogate, a high+low surrogate pair) and returns the bytes the grammar assigns; the tokenizer
+   answers a string token exactly when moreover the decoded bytes are valid UTF-8 *)
+Theorem string_literal_exact : forall s str r,
+  scan_string None s = Some (str, r) <-> exists b, s = b ++ 34 :: r /\ StrBody b str.
+Proof. exact scan_string_exact. Qed.
+Print Assumptions string_literal_exact.
+Theorem string_token_exact : forall to_double s str r n,
+  next to_double false (34 :: s) = (TStr str, r, n) <->
+  (n = 0 /\ exists b, s = b ++ 34 :: r /\ StrBody b str /\ utf8_valid str = true).
+Proof. exact StrExact.string_token_exact. Qed.
+Print Assumptions string_token_exact.
+
+(* 3e. the converse of theorem 3 ("accepts exactly"): whatever parse accepts is, token by token (lexes = the tokens the tokenizer delivers),
+   a text of the token grammar TVal of Sound.v - JSON values written left to right: PArr s items ts = an opening bracket followed by
+   elements and commas, a value only in value position, a comma only after a value, the closing bracket at any point (this is where a trailing
+   comma gets in, PA_comma then TV_arr); objects likewise with key, colon, value and the duplicate-key test (PO_val) - and the value returned
+   is the value the grammar assigns; every token is a structural character, a string, a number or a keyword.  With string_token_exact,
+   number_token_exact and tokenizer_dispatch_by_class (whitespace, // comments) each token's lexeme is characterised exactly. *)
+Theorem parse_accepts_only_grammar : forall to_double full s v rest, parse to_double full s = POk v rest ->
+  exists toks s', lexes to_double s toks s' /\ TVal toks v /\ Forall good_token toks /\
+    (if full then exists n, next to_double false s' = (TEof, rest, n) else rest = s').
+Proof. exact Sound.parse_accepts_only_grammar. Qed.
+Print Assumptions parse_accepts_only_grammar.
+Example token_grammar_nonvacuous :
+  TVal [TStruct 91; TNull; TStruct 44; TStruct 93] (JArr [JNull]) /\
+  TVal [TStruct 123; TStr [97]; TStruct 58; TStruct 91; TStruct 93; TStruct 125] (JObj [([97], JArr [])]).
+Proof. exact Sound.token_grammar_nonvacuous. Qed.
+
+(* 3f. exactly: an input is accepted with value v iff its tokens form a text of the token grammar denoting v, nested at most 512 deep, and
+   are followed by the end of input (Complete.v: the machine run on the tokens of any TVal text within the bound reaches the done state) *)
+Theorem grammar_text_accepted : forall to_double s toks s' v rest n,
+  lexes to_double s toks s' -> TVal toks v -> (depth v <= max_depth)%nat ->
+  next to_double false s' = (TEof, rest, n) -> parse to_double true s = POk v rest.
+Proof. exact Complete.grammar_text_accepted. Qed.
+Print Assumptions grammar_text_accepted.
+Theorem parse_accepts_exactly : forall to_double s v rest,
+  parse to_double true s = POk v rest <->
+  exists toks s' n, lexes to_double s toks s' /\ TVal toks v /\ (depth v <= max_depth)%nat /\
+                    next to_double false s' = (TEof, rest, n).
+Proof. exact Complete.parse_accepts_exactly. Qed.
+Print Assumptions parse_accepts_exactly.
+
+Theorem parse_prefix_accepts_exactly : forall to_double s v rest,
+  parse to_double false s = POk v rest <->
+  exists toks, lexes to_double s toks rest /\ TVal toks v /\ (depth v <= max_depth)%nat.
+Proof. exact Complete.parse_prefix_accepts_exactly. Qed.
+Print Assumptions parse_prefix_accepts_exactly.
+(* 3g. what the tokenizer skips: before a proper token it skips exactly a sequence of SP / HT / CR / LF bytes and // comments ended by LF
+   (Skip), then reads the token at an input that starts with the token's first byte (token_start: not whitespace, newline or comment
+   start) - the form on which string_token_exact, number_token_exact and tokenizer_dispatch_by_class are stated *)
+Theorem next_skips_then_reads : forall to_double s t r k, next to_double false s = (t, r, k) -> good_token t ->
+  exists pre tl k0, s = pre ++ tl /\ Skip pre /\ token_start tl /\ next to_double false tl = (t, r, k0).
+Proof. exact Lex.next_skips_then_reads. Qed.
+Print Assumptions next_skips_then_reads.
+(* SP // c LF HT [ : the bracket is read after a space, a comment and a tab *)
+Example next_skips_nonvacuous : forall td,
+  next td false [32;47;47;99;10;9;91;49] = (TStruct 91, [49], 0) /\ Skip [32;47;47;99;10;9] /\ token_start [91;49].
+Proof.
+  intros. split; [reflexivity|]. split; [|repeat split; discriminate].
+  apply SK_ws; [reflexivity|]. apply (SK_comment [99] [9]); [repeat constructor; discriminate|]. apply SK_ws; [reflexivity|constructor].
+Qed.
+
+(* 3h. the \u accumulation (sscanf "%x" of four hex digits stored into a uint16_t; libc, not translatable): the model's hex4 is the
+   positional value of the digits, each digit below 16 with the usual values for 0-9, A-F, a-f, and the result fits 16 bits (no truncation) *)
+Theorem hex_escape_accumulation : forall h1 h2 h3 h4, hex4_ok h1 h2 h3 h4 = true ->
+  hex4 h1 h2 h3 h4 = 4096 * hexval h1 + 256 * hexval h2 + 16 * hexval h3 + hexval h4 /\
+  hexval h1 < 16 /\ hexval h2 < 16 /\ hexval h3 < 16 /\ hexval h4 < 16 /\ hex4 h1 h2 h3 h4 < 65536.
+Proof. exact hex_accumulation. Qed.
+Print Assumptions hex_escape_accumulation.
+Theorem hex_digit_values : forall c, is_hex c = true ->
+  (48 <= c <= 57 /\ hexval c = c - 48) \/ (65 <= c <= 70 /\ hexval c = c - 55) \/ (97 <= c <= 102 /\ hexval c = c - 87).
+Proof. exact hexval_digit. Qed.
+Print Assumptions hex_digit_values.
+
 (* 4. a failed load leaves the target untouched *)
 Theorem fail_keeps_target : forall to_double target full s t,
   load to_double target full s = (false, t) -> t = target.
@@ -179,6 +401,77 @@ Proof.
     + right. exists 53, []. split; [reflexivity|repeat constructor].
 Qed.
 
+(* 5b. the number round trip from two global laws, with the excluded class explicit (NumRound.v).  reread x = what strtod returns for
+   the text the scanner extracts from print16 x; excluded x = (reread x = None): the printed 16 digits do not read back as a finite
+   double - known finding 2 (the two largest finite doubles of each sign).  Law 1: the printer emits an RFC 8259 number for every finite
+   double; law 2: rt x is the double read back.  Outside the excluded class the value is reloaded as map_nums rt v; a number of the
+   excluded class is written to text the reader rejects. *)
+Theorem roundtrip_outside_excluded_class : forall to_double print16 rt finite,
+  (forall x, finite x = true -> rfc_num (print16 x) = true) ->
+  (forall x b, finite x = true -> reread to_double print16 x = Some b -> b = rt x) ->
+  forall v tabs, no_undef v = true -> strings_ok utf8_valid v = true -> maps_ok v = true ->
+  nums_in (fun x => finite x = true /\ ~ excluded to_double print16 x) v -> (depth v <= max_depth)%nat ->
+  exists txt, write print16 tabs v = Some txt /\ parse to_double true txt = POk (map_nums rt v) [].
+Proof. exact NumRound.roundtrip_outside_excluded_class. Qed.
+Print Assumptions roundtrip_outside_excluded_class.
+Theorem excluded_number_rejected : forall to_double print16 finite,
+  (forall x, finite x = true -> rfc_num (print16 x) = true) ->
+  forall x tabs, finite x = true -> excluded to_double print16 x ->
+  exists txt, write print16 tabs (JNum x) = Some txt /\ parse to_double true txt = PFail 1.
+Proof. exact NumRound.excluded_number_rejected. Qed.
+Print Assumptions excluded_number_rejected.
+
+(* the two laws and the side conditions are satisfiable together (a printer that always prints 1, a reader that always answers 7) *)
+Example roundtrip_laws_nonvacuous :
+  let td := fun _ : list N => Some 7 in let p16 := fun _ : N => [49] in let rt := fun _ : N => 7 in let fin := fun _ : N => true in
+  (forall x, fin x = true -> rfc_num (p16 x) = true) /\
+  (forall x b, fin x = true -> reread td p16 x = Some b -> b = rt x) /\
+  nums_in (fun x => fin x = true /\ ~ excluded td p16 x) (JArr [JNum 5; JNull]) /\
+  parse td true [91;49;44;110;117;108;108;93] = POk (JArr [JNum 7; JNull]) [].
+Proof.
+  cbv zeta. split; [intros; reflexivity|]. split; [intros x b _ H; inversion H; reflexivity|]. split; [|vm_compute; reflexivity].
+  constructor. constructor; [constructor; split; [reflexivity|discriminate]|]. constructor; [constructor|constructor].
+Qed.
+
+(* 6. integers.  The printer and the reader are concrete on the class of integer-valued numbers (IntRound.v): print_nat = decimal
+   digits, dec_value = their value, enc_sm neg a = the binary64 pattern of (-1)^neg * a, print16_int / to_double_int = what
+   printf %.16g emits for / strtod returns on that class, small_int b = "b holds an integer of magnitude below 2^53".  Every such integer
+   (both signs, -0 included) is representable, prints as an RFC 8259 integer lexeme that the scanner takes whole and that denotes it, and
+   reads back as the same bit pattern: under the two laws "the platform printer / strtod agree with print16_int / to_double_int on
+   the class", a value whose numbers are all small integers round-trips exactly in the FIRST round, in every layout. *)
+Theorem decimal_digits_of_natural : forall n, int_ok (print_nat n) /\ dec_value (print_nat n) = n.
+Proof. exact print_nat_spec. Qed.
+Print Assumptions decimal_digits_of_natural.
+Theorem small_integers_representable : forall neg a, (0 < a)%N -> a < 9007199254740992 ->
+  dbl_int (enc_sm neg a) = Some ((if neg then -1 else 1) * Z.of_N a)%Z /\ small_int (enc_sm neg a) = true.
+Proof. intros neg a H1 H2. split; [apply dbl_int_enc; assumption|apply small_int_enc; exact H2]. Qed.
+Print Assumptions small_integers_representable.
+Theorem integer_print_scan_concrete : forall b, small_int b = true ->
+  exists neg i, int_ok i /\ print16_int b = Some (num_text neg i [] None) /\
+                rfc_num (num_text neg i [] None) = true /\
+                (forall rest, stops rest -> scan_number (num_text neg i [] None ++ rest) = (num_norm neg i [] None, rest)) /\
+                to_double_int (num_norm neg i [] None) = b.
+Proof. exact int_print_scan. Qed.
+Print Assumptions integer_print_scan_concrete.
+Theorem integers_roundtrip_exact : forall to_double print16,
+  (forall b x, small_int b = true -> print16_int b = Some x -> print16 b = x) ->
+  (forall neg i, int_ok i -> dec_value i < 9007199254740992 ->
+     to_double (num_norm neg i [] None) = Some (to_double_int (num_norm neg i [] None))) ->
+  forall v tabs, no_undef v = true -> strings_ok utf8_valid v = true -> maps_ok v = true -> nums_ok small_int v = true ->
+  (depth v <= max_depth)%nat ->
+  exists txt, write print16 tabs v = Some txt /\ parse to_double true txt = POk v [].
+Proof. exact IntRound.integers_roundtrip_exact. Qed.
+Print Assumptions integers_roundtrip_exact.
+(* 2^53 - 1, -0 and -12345 with their bit patterns *)
+Example integers_roundtrip_nonvacuous :
+  small_int (enc_sm false 9007199254740991) = true /\
+  print16_int (enc_sm false 9007199254740991) = Some [57;48;48;55;49;57;57;50;53;52;55;52;48;57;57;49] /\
+  to_double_int [57;48;48;55;49;57;57;50;53;52;55;52;48;57;57;49] = enc_sm false 9007199254740991 /\
+  enc_sm false 9007199254740991 = 4845873199050653695 /\
+  print16_int sign_bit = Some [45;48] /\ to_double_int [45;48] = sign_bit /\
+  print16_int (enc_sm true 12345) = Some [45;49;50;51;52;53] /\ enc_sm true 12345 = 13891384386705686528.
+Proof. exact int_roundtrip_nonvacuous. Qed.
+
 (* 7. typed extraction returns the exact number or fails *)
 Theorem get_int_exact : forall lo hi b n,
   get_int lo hi b = Some n ->
@@ -200,33 +493,96 @@ Example get_int_nonvacuous :
   get_int (-128) 127 4638637247447433216 = Some 127%Z /\ get_int 0 255 4602678819172646912 = None.
 Proof. vm_compute. repeat split. Qed.
 
-(* T. the leaf functions and the depth constant regenerated from the current source equal the model leafs *)
-Theorem src_max_depth : g_json_max_depth = Z.of_nat max_depth.
-Proof. exact link_max_depth. Qed.
-Print Assumptions src_max_depth.
-Theorem src_is_trail : forall b, b < 256 -> g_is_trail (Z.of_N b) = is_trail b.
-Proof. exact link_is_trail. Qed.
-Print Assumptions src_is_trail.
-Theorem src_trail_length : forall b, b < 256 ->
-  g_trail_length (Z.of_N b) = (if trail_length b =? 4 then (-1)%Z else Z.of_N (trail_length b)).
-Proof. exact link_trail_length. Qed.
-Print Assumptions src_trail_length.
-Theorem src_width : forall v, g_width (Z.of_N v) = Z.of_N (cp_width v).
-Proof. exact link_width. Qed.
-Print Assumptions src_width.
-Theorem src_valid : forall v, g_valid (Z.of_N v) = cp_valid v.
-Proof. exact link_valid. Qed.
-Print Assumptions src_valid.
-Theorem src_is_first_surrogate : forall x, g_is_first_surrogate (Z.of_N x) = is_first_surrogate x.
-Proof. exact link_is_first_surrogate. Qed.
-Print Assumptions src_is_first_surrogate.
-Theorem src_is_second_surrogate : forall x, g_is_second_surrogate (Z.of_N x) = is_second_surrogate x.
-Proof. exact link_is_second_surrogate. Qed.
-Print Assumptions src_is_second_surrogate.
-Theorem src_combine_surrogate : forall w1 w2, w1 < 65536 -> w2 < 65536 ->
-  g_combine_surrogate (Z.of_N w1) (Z.of_N w2) = Z.of_N (combine_surrogate w1 w2).
-Proof. exact link_combine_surrogate. Qed.
-Print Assumptions src_combine_surrogate.
+(* 8. the value API the round trip relies on (ValueApi.v): member order = std::map order of string_key::operator< (lexicographic
+   by unsigned byte, a proper prefix first), map::insert keeps an existing member, insertion order does not matter, and
+   value::operator== (jv_eqb: numbers by IEEE equality) is reflexive on NaN-free values and implies identity up to the sign of zeros *)
+Theorem key_order_is_strict_total_lexicographic :
+  ((forall a, key_ltb a a = false) /\
+   (forall a b c, key_ltb a b = true -> key_ltb b c = true -> key_ltb a c = true) /\
+   (forall a b, key_ltb a b = true \/ a = b \/ key_ltb b a = true) /\
+   (forall a b, key_ltb a b = true -> key_ltb b a = false)) /\
+  (forall p x y a b, x < y -> key_ltb (p ++ x :: a) (p ++ y :: b) = true) /\
+  (forall p c a, key_ltb p (p ++ c :: a) = true).
+Proof. split; [exact key_order_strict_total|]. split; [exact key_order_lexicographic|exact key_order_prefix]. Qed.
+Print Assumptions key_order_is_strict_total_lexicographic.
+Theorem map_insert_semantics :
+  (forall k (v : jv) m, keys_sorted m = true -> keys_sorted (map_insert k v m) = true) /\
+  (forall k (v : jv) m, keys_sorted m = true -> map_mem k m = true -> map_insert k v m = m) /\
+  (forall k (v : jv) m, map_mem k m = false -> map_find k (map_insert k v m) = Some v) /\
+  (forall k k2 (v : jv) m, key_eqb k2 k = false -> map_find k2 (map_insert k v m) = map_find k2 m).
+Proof.
+  split; [exact (@insert_sorted jv)|]. split; [exact (@insert_existing_keeps jv)|].
+  split; [exact (@find_after_insert jv)|exact (@find_other_after_insert jv)].
+Qed.
+Print Assumptions map_insert_semantics.
+Theorem member_order_independent_of_insertion_order : forall k1 k2 (v1 v2 : jv), key_eqb k1 k2 = false ->
+  forall m, keys_sorted m = true -> map_insert k1 v1 (map_insert k2 v2 m) = map_insert k2 v2 (map_insert k1 v1 m).
+Proof. exact (@insert_commute jv). Qed.
+Print Assumptions member_order_independent_of_insertion_order.
+Theorem value_equality :
+  (forall v, nums_ok (fun b => negb (is_nan b)) v = true -> jv_eqb v v = true) /\
+  (forall v w, jv_eqb v w = true -> map_nums canon_zero v = map_nums canon_zero w).
+Proof. split; [exact jv_eqb_refl|exact jv_eqb_sound]. Qed.
+Print Assumptions value_equality.
+Example value_api_nonvacuous :
+  map_insert [98] JNull (map_insert [97] (JBool true) []) = [([97], JBool true); ([98], JNull)] /\
+  map_insert [97] (JBool true) (map_insert [98] JNull []) = [([97], JBool true); ([98], JNull)] /\
+  map_insert [97] JNull [([97], JBool true)] = [([97], JBool true)] /\
+  key_ltb [97] [97; 0] = true /\ key_ltb [127] [195; 169] = true /\ key_ltb [] [0] = true /\
+  jv_eqb (JArr [JNum 0]) (JArr [JNum 9223372036854775808]) = true /\
+  jv_eqb (JNum 9221120237041090560) (JNum 9221120237041090560) = false /\
+  jv_eqb (JObj [([97], JNum 1)]) (JObj [([97], JNum 2)]) = false.
+Proof. exact ValueApi.value_api_nonvacuous. Qed.
+
+(* T. the leaf functions, tables and the depth constant regenerated from the current source equal the model leafs.
+   utf helpers of private/utf_iterator.h (trail_length: the model writes 4 for the -1 of the source; combine_surrogate with the
+   uint32_t wrap, for all 16-bit units) *)
+Theorem src_constants_and_utf_helpers :
+  g_json_max_depth = Z.of_nat max_depth /\
+  (forall b, b < 256 -> g_is_trail (Z.of_N b) = is_trail b) /\
+  (forall b, b < 256 -> g_trail_length (Z.of_N b) = (if trail_length b =? 4 then (-1)%Z else Z.of_N (trail_length b))) /\
+  (forall v, g_width (Z.of_N v) = Z.of_N (cp_width v)) /\
+  (forall v, g_valid (Z.of_N v) = cp_valid v) /\
+  (forall x, g_is_first_surrogate (Z.of_N x) = is_first_surrogate x) /\
+  (forall x, g_is_second_surrogate (Z.of_N x) = is_second_surrogate x) /\
+  (forall w1 w2, w1 < 65536 -> w2 < 65536 -> g_combine_surrogate (Z.of_N w1) (Z.of_N w2) = Z.of_N (combine_surrogate w1 w2)).
+Proof.
+  split; [exact link_max_depth|]. split; [exact link_is_trail|]. split; [exact link_trail_length|]. split; [exact link_width|].
+  split; [exact link_valid|]. split; [exact link_is_first_surrogate|]. split; [exact link_is_second_surrogate|exact link_combine_surrogate].
+Qed.
+Print Assumptions src_constants_and_utf_helpers.
+(* the reader.  The dispatch switch of tockenizer::next read from the source as byte -> class (1 structural, 2 skipped, 3 newline,
+   4 string, 5 true, 6 null, 7 false, 8 number, 9 comment start, 0 error) and keyword tails equals tok_class / kw_tail, and the
+   model's next is, for every input, the function next_spec of these classes *)
+Theorem src_reader_dispatch :
+  (forall b, b < 256 -> g_json_tokclass (Z.of_N b) = Z.of_N (tok_class b)) /\
+  (forall b, b < 256 -> zs2ns (g_json_kw (Z.of_N b)) = kw_tail b).
+Proof. split; [exact link_tokclass|exact link_kw]. Qed.
+Print Assumptions src_reader_dispatch.
+Theorem tokenizer_dispatch_by_class : forall to_double c r, next to_double false (c :: r) = next_spec to_double c r.
+Proof. exact TokClass.next_by_class. Qed.
+Print Assumptions tokenizer_dispatch_by_class.
+(* the escape switch of parse_string (-3 the byte itself, -2 the \u path, -1 rejected, else the character appended), the control
+   character test (on an int holding the byte) and the hex digit test of read_4_digits (on a signed char) *)
+Theorem src_reader_escape_switch_and_byte_tests :
+  (forall b, b < 256 -> g_json_unesc (Z.of_N b) = unesc_code b) /\
+  (forall b, b < 256 -> g_json_is_ctl (Z.of_N b) = (b <=? 31)) /\
+  (forall b, b < 256 -> g_json_is_hex (wraps 8 (Z.of_N b)) = is_hex b).
+Proof. split; [exact link_unesc|]. split; [exact link_is_ctl|exact link_is_hex]. Qed.
+Print Assumptions src_reader_escape_switch_and_byte_tests.
+Theorem escape_dispatch_by_class : forall e r, e <> 117 ->
+  scan_string None (92 :: e :: r) = match simple_esc e with Some x => consb x (scan_string None r) | None => None end.
+Proof. exact TokClass.scan_esc_by_class. Qed.
+Print Assumptions escape_dispatch_by_class.
+(* the writer layout: the statements of indent(out,c,tabs) and pad read from the source (codes interpreted by Link.run_ev) produce,
+   for every indentation, exactly the model's w_open / w_comma / w_colon / w_close and the same change of tabs *)
+Theorem src_writer_layout :
+  (forall c n, c = 91 \/ c = 123 -> g_indent c n = (w_open c (Some n), S n)) /\
+  (forall t, g_indent 44 t = (w_comma (Some t), t)) /\
+  (forall t, g_indent 58 t = (w_colon (Some t), t)) /\
+  (forall c n, c = 93 \/ c = 125 -> g_indent c (S n) = (w_close c (Some n), n)).
+Proof. split; [exact link_indent_open|]. split; [exact link_indent_comma|]. split; [exact link_indent_colon|exact link_indent_close]. Qed.
+Print Assumptions src_writer_layout.
 Theorem src_escape_switch : forall b, b < 256 ->
   zs2ns (g_json_addon (Z.of_N b)) = (if leqb (esc1 b) [b] then [] else esc1 b).
 Proof. exact link_esc1. Qed.
